@@ -31,14 +31,15 @@ Definition post_commit_pathspecs (cp_files ini_files : list (list N)) (keep : li
   : list (list N) := cp_files ++ initial_pathspecs ini_files keep.
 
 (* the hunks of file f that the split gets to see *)
-Definition hunks_seen (ps : list (list N)) (f : list N) (h : list N) : list N :=
+Definition hunks_seen {A} (ps : list (list N)) (f : list N) (h : list A) : list A :=
   if path_mem f ps then h else [].
 
 (* the split of one file f inside post_commit; attrs = the attributions of f that
    from_just_working_log builds (INITIAL of the parent's working log plus checkpoints);
-   K U Pu = the hunks git reports for f between parent, commit and work tree.  For an untracked
-   file named by the pathspecs U = Pu = 1..line_count (untracked_whole_file). *)
+   K U H = the added lines and hunk extents git reports for f between parent, commit and work
+   tree.  For an untracked file named by the pathspecs U = 1..line_count and
+   H = [(0, 1, line_count)] (untracked_whole_file). *)
 Definition post_commit_file (cp_files ini_files : list (list N)) (keep : list N -> bool)
-           (f : list N) (attrs : list lattr) (K U Pu : list N) : split_res :=
+           (f : list N) (attrs : list lattr) (K U : list N) (H : list hunk) : split_res :=
   let ps := post_commit_pathspecs cp_files ini_files keep in
-  split_file attrs (hunks_seen ps f K) (hunks_seen ps f U) (hunks_seen ps f Pu).
+  split_file attrs (hunks_seen ps f K) (hunks_seen ps f U) (hunks_seen ps f H).
